@@ -266,7 +266,7 @@ theorem install_rows_list (ns : List Note) (orig : Note) (base : Nat) (ps : List
   have hfromMore : ∀ b ∈ more, b.tiePrev.isSome = true →
       ∃ m', lk (installChain ns orig (first :: more)) b.key = some m' ∧ m'.tiePrev.isSome = true := by
     intro b hb hbp
-    refine ⟨r b, ?_, (hr b).2.2.2.2.2.2.2.2 hbp⟩
+    refine ⟨r b, ?_, (hr b).2.2.2.2.2.2.2.2.1 hbp⟩
     rw [hlk, find_self more hnd b hb]
     rfl
   -- every element of the new list is (up to the relinked back link) an old note, `first`, or a new piece
